@@ -96,7 +96,9 @@ class HostKeys(MutableMapping):
                 except SSHException:
                     continue
                 if entry is not None:
-                    _hostnames = entry.hostnames
+                    # iterate over a copy: duplicates are removed from
+                    # entry.hostnames inside the loop
+                    _hostnames = list(entry.hostnames)
                     for h in _hostnames:
                         if self.check(h, entry.key):
                             entry.hostnames.remove(h)
